@@ -2,6 +2,10 @@
 """Development aid: print the detection matrix of /verif/seeded as markdown, one table per round."""
 import json, glob, os, re, collections
 rows=collections.defaultdict(list)
+try:
+    WHO=json.load(open('/root/who_catches.json'))
+except Exception:
+    WHO={}
 for d in sorted(glob.glob('/verif/seeded/*/meta.json')):
     m=json.load(open(d))
     ident=m['id']
@@ -15,6 +19,8 @@ for d in sorted(glob.glob('/verif/seeded/*/meta.json')):
     tgt=m.get('breaks')
     t='yes' if tgt in (m.get('caught_by_quick') or []) else ('thorough' if m.get('targeted_check_thorough_exit')==1 else 'no')
     fin=m.get('targeted_check_quick_on_final_snapshot')
+    if fin=='silent':
+        fin='silent; reported by '+WHO[ident] if WHO.get(ident) else ('silent; no check reports it' if ident in WHO else 'silent')
     rows[rnd].append((ident,desc,caught,t,fin))
 for rnd in sorted(rows):
     snap={json.load(open(f'/verif/seeded/{r[0]}/meta.json')).get('evaluated_on_verif_commit') for r in rows[rnd]}
